@@ -150,8 +150,14 @@ def linesCodec : LeafCodec where
   de := fun t => .ok (.list (Text.lines t))
   canon := fun v => ∃ l, v = .list l ∧ ∀ w ∈ l, w ≠ [] ∧ '\n' ∉ w ∧ w.getLast? ≠ some '\r'
 
-/-- repository types: `split_whitespace`, each a `RepositoryType`, into a `HashSet`; printed joined
-    by `\n` in iteration order — the model (and the worker's observable) uses sorted order -/
+/-- `String`'s `Ord` (byte-wise = code-point order), as `≤` -/
+def strLe (a b : Str) : Bool := !Codec.strLt b a
+
+/-- `v.sort()` on a `Vec<String>`, modelled by `List.mergeSort` -/
+def sortStrings (l : List Str) : List Str := l.mergeSort strLe
+
+/-- repository types: `split_whitespace`, each a `RepositoryType`, into a `HashSet` (kept here as the
+    sorted list of its printed keywords); `serialize_types`: the strings sorted, joined by `\n` -/
 def insertSorted (x : Str) : List Str → List Str
   | [] => [x]
   | y :: r => if x = y then y :: r else if Codec.strLt x y then x :: y :: r else y :: insertSorted x r
@@ -164,10 +170,10 @@ def typesDe : List Str → List Str → Except Str (List Str)
     | some k => typesDe ws (insertSorted ((printOf Gen.Enums.repositoryType k).getD []) acc)
 
 def typesCodec : LeafCodec where
-  ser := listSer ['\n']
+  ser := fun v => match v with | .list l => joinWith ['\n'] (sortStrings l) | _ => []
   de := fun t => match typesDe (splitWhitespace t) [] with | .ok l => .ok (.list l) | .error e => .error e
-  canon := fun v => v = .list [] ∨ v = .list ["deb".toList] ∨ v = .list ["deb-src".toList]
-    ∨ v = .list ["deb".toList, "deb-src".toList]
+  canon := fun v => v = .list [] ∨ v = .list [c!"deb"] ∨ v = .list [c!"deb-src"]
+    ∨ v = .list [c!"deb", c!"deb-src"]
 
 /-! ### the buildinfo environment -/
 
@@ -178,17 +184,19 @@ def envDe : List Str → List (Str × Str) → Except Str (List (Str × Str))
     | none => .error "Invalid environment variable".toList
     | some kv => envDe ls (Codec.mapInsert kv.1 kv.2 m)
 
-def envPiece (p : Str × Str) : Str := p.1 ++ '=' :: (p.2 ++ ['\n'])
+def envPiece (p : Str × Str) : Str := p.1 ++ '=' :: p.2
 
-/-- pieces `k=v\n` in code-point order of the pieces (the real order is the `HashMap`'s) -/
-def envSer (m : List (Str × Str)) : Str :=
-  ((m.map envPiece).mergeSort (fun a b => !Codec.strLt b a)).flatten
+/-- `serialize_env`: the `K=V` strings sorted, joined by `\n` (no trailing newline) -/
+def envSer (m : List (Str × Str)) : Str := joinWith ['\n'] (sortStrings (m.map envPiece))
+
+/-- the `HashMap` in canonical form: keys strictly increasing -/
+def MapSorted (m : List (Str × Str)) : Prop := m.Pairwise (fun p q => Codec.strLt p.1 q.1 = true)
 
 def envCodec : LeafCodec where
   ser := fun v => match v with | .map m => envSer m | _ => []
   de := fun t => match envDe (Text.lines t) [] with | .ok m => .ok (.map m) | .error e => .error e
-  canon := fun v => ∃ m, v = .map m ∧ m.length ≤ 1
-    ∧ ∀ p ∈ m, '=' ∉ p.1 ∧ '\n' ∉ p.1 ∧ '\n' ∉ p.2 ∧ p.2.getLast? ≠ some '\r'
+  canon := fun v => ∃ m, v = .map m ∧ MapSorted m
+    ∧ ∀ p ∈ m, '=' ∉ p.1 ∧ '\n' ∉ p.1 ∧ '\n' ∉ p.2 ∧ (envPiece p).getLast? ≠ some '\r'
 
 /-! ### typed values of property C18 (models of `Model/Codec.lean`) -/
 
